@@ -199,7 +199,7 @@ def explain_lookups(ctx, seed, hargs, h, step, spec):
     spec = None (all queries, default options) or {"qs": [...], "los": [...]}"""
     args = ["-mode", "detail", "-seed", seed, "-hist", h["idx"], "-step", step] + hargs
     if spec is not None:
-        args += ["-spec", json.dumps(spec)]
+        args += ["-spec", json.dumps(spec), "-ne"]
     rows = [r for r in hstore(args) if r.get("kind") == "lookup"]
     if spec is None:
         qs = None
@@ -212,7 +212,8 @@ def explain_lookups(ctx, seed, hargs, h, step, spec):
     v += "Definition QS := %s.\n" % ("all_queries PL" if qs is None else "[" + ";".join(c_query(q, h["pools"]) for q in qs) + "]")
     v += "Definition LOS := [%s].\n" % ";".join(c_lopts(l) for l in los)
     for nm in VARIANTS:
-        v += "Definition D_%s := Eval vm_compute in detail %s QS LOS S.\nPrint D_%s.\n" % (nm, nm, nm)
+        v += "Definition D_%s := Eval vm_compute in %s %s QS LOS S.\nPrint D_%s.\n" % (
+            nm, "detail" if spec is None else "detail_ne", nm, nm)
     out = vcheck.coq_eval(ctx.work, "explain_lookups", v)
     ds = {nm: parse_nlist(out, "D_" + nm) for nm in VARIANTS}
     bad = []
@@ -297,3 +298,35 @@ def distribution(hists):
     return {"histories": len(hists), "steps": nsteps, "operation_mix": ops,
             "history_length_min_max": [min(sizes), max(sizes)] if sizes else [0, 0],
             "universe_sizes_min_max": [min(len(h["universe"]) for h in hists), max(len(h["universe"]) for h in hists)] if hists else [0, 0]}
+
+
+def replay(ctx, flags, hargs, cfg):
+    """bin/check Cxx --replay file: re-run exactly the recorded history on the implementation and in the model,
+    print what the implementation, the model and the spec say at the recorded step. Returns True if handled."""
+    d = json.load(open(ctx.replay))
+    v = d.get("violation", {})
+    if v.get("kind") != "model-vs-implementation":
+        return False
+    seed, idx, step = v.get("seed", d.get("seed", 1)), v["history"], v["step"]
+    hists = hstore(["-mode", "hist", "-first", idx, "-n", 1, "-seed", seed] + flags + hargs)
+    bad = model_mismatches(ctx, "replay", hists, *cfg)
+    h = hists[0]
+    print("replay: history %d of seed %s, %d steps; recorded step %d" % (idx, seed, len(h["steps"]), step))
+    if step < len(h["steps"]):
+        ex = explain_store(ctx, h, step)
+        print("replay: implementation:", json.dumps(ex["implementation"]))
+        print("replay: model         :", json.dumps(ex["model"]))
+        if cfg[1] or cfg[2]:
+            spec = None
+            if cfg[2] and h["steps"][step]["obs"]["c09"]:
+                e = h["steps"][step]["obs"]["c09"][0]
+                spec = {"qs": e["qs"], "los": e["los"]}
+            fails = explain_lookups(ctx, seed, hargs, h, step, spec)
+            print("replay: lookups on which implementation differs from model/spec:", json.dumps(fails[:5]))
+    if bad:
+        report(ctx, seed, hargs, hists, bad)
+    else:
+        print("replay: model, spec and implementation agree on this history now")
+    ctx.cov["evaluations"] = sum(len(x["steps"]) for x in hists)
+    ctx.cov["rule"] = "replay of one recorded history"
+    return True
